@@ -194,7 +194,7 @@ def check_message(e, files_by_id, want_tok=None, want_off=None):
     if disp is None:
         bad.append(("no-display", ""))
     elif a <= len(s):
-        lt = line_text(s, a)
+        lt = line_text(s, a).rstrip()      # ariadne prints a line without its trailing white space
         if lt.strip() and lt not in disp:
             bad.append(("display-misses-line", repr(lt)[:80]))
     ft = found_text(e.get("reason") or "")
@@ -552,12 +552,21 @@ def run():
         exprs, exp = [], []
         for c in parc:
             toks = [(t["s"], t["e"]) for t in c["lex"]["ok"] if not t["skip"]]
+            if not tpls[c["ti"]].get("check_tok", True) or not c["tok"]:
+                continue
             bs = len(c["src"][:c["off"]].encode("utf-8"))
+            be = bs + len(c["tok"].encode("utf-8"))
             idx = [i for i, t in enumerate(toks) if t[0] == bs and i > 0]
             if not idx:
                 continue
             i = idx[0]
-            exprs.append("let sp := map_span [%s] %d %d 1 in (sp_start sp, sp_end sp)" % ("; ".join("(%d, %d)" % t for t in toks), i, i + 1))
+            # the marked text is the token range i..j (chumsky's range of token indices): j-1 is the token that ends it
+            jdx = [k + 1 for k, t in enumerate(toks) if t[1] == be and k >= i]
+            if not jdx:
+                continue
+            j = jdx[0]
+            ck.stat("corr-map-span", "tokens=%d" % min(j - i, 3))
+            exprs.append("let sp := map_span [%s] %d %d 1 in (sp_start sp, sp_end sp)" % ("; ".join("(%d, %d)" % t for t in toks), i, j))
             sp = c["ans"]["err"][0]["span"]
             exp.append((c, (sp["start"], sp["end"])))
         try:
